@@ -232,6 +232,9 @@ pub struct World {
     pub handles: BTreeMap<Hid, HandleState>,
     pub viol: Option<Violation>,
     pub pending: Option<Violation>,
+    /// when set, every event and every op is written here *before* it is executed, so that the
+    /// trace of a run that crashes the process can be recovered (driver: crash replay files)
+    pub stream: Option<std::fs::File>,
     pub ev_index: usize,
     pub stats: Stats,
     /// abstract signature of the run (ids and addresses erased)
@@ -317,6 +320,7 @@ impl World {
             handles: BTreeMap::new(),
             viol: None,
             pending: None,
+            stream: None,
             ev_index: 0,
             stats: Stats::default(),
             sig: 0x5157,
@@ -339,6 +343,14 @@ impl World {
     }
     pub fn ok(&self) -> bool {
         self.viol.is_none()
+    }
+
+    pub fn stream_line(&mut self, tag: char, json: String) {
+        if let Some(f) = self.stream.as_mut() {
+            use std::io::Write;
+            let _p = seam::pause();
+            let _ = writeln!(f, "{tag} {json}");
+        }
     }
 
     /// A violation that must not stop the event yet: what follows in the same event may show a
